@@ -78,7 +78,7 @@ theorem tokOk_congr_head {cc : CharClass} (t : Token) (hn : ¬ isNot t) {R R' : 
         · next h3 =>
           rw [if_neg h3, if_neg hn] at hok
           split
-          · next h5 => rw [if_pos h5] at hok; rw [← h]; exact hok
+          · next h5 => rw [if_pos h5] at hok; intro c hc; exact hok c (h ▸ hc)
           · next h5 =>
             rw [if_neg h5] at hok
             split
